@@ -15,9 +15,9 @@ import (
 
 var n int
 
-func z(i int) string       { return fmt.Sprintf("(%d)%%Z", i) }
-func nn(i uint64) string   { return fmt.Sprintf("(%d)%%N", i) }
-func b(v bool) string      { return fmt.Sprintf("%v", v) }
+func z(i int) string     { return fmt.Sprintf("(%d)%%Z", i) }
+func nn(i uint64) string { return fmt.Sprintf("(%d)%%N", i) }
+func b(v bool) string    { return fmt.Sprintf("%v", v) }
 func bytesL(x []byte) string {
 	if len(x) == 0 {
 		return "(@nil N)"
@@ -48,7 +48,7 @@ func intL(x []int) string {
 	}
 	return "([" + strings.Join(p, "; ") + "]%Z)"
 }
-func pt(p fx.Pt) string { return "(mk_T_Pt " + z(p.X) + " " + z(p.Y) + " " + bytesL(p.Tag) + ")" }
+func pt(p fx.Pt) string   { return "(mk_T_Pt " + z(p.X) + " " + z(p.Y) + " " + bytesL(p.Tag) + ")" }
 func errS(e error) string { return b(e != nil) }
 
 func ex(lhs, rhs string) {
@@ -171,6 +171,75 @@ func main() {
 		ex("go_Clamp3 "+z(ca)+" "+z(cb)+" "+z(cz)+" "+pt(cp2), "("+z(cx)+", "+z(cy)+", "+pt(cq)+")")
 		ma, mb := r.Uint32(), uint8(r.Intn(256))
 		ex("go_Mix "+nn(uint64(ma))+" "+nn(uint64(mb)), nn(uint64(fx.Mix(ma, mb))))
+	}
+	// interface values as sum types
+	hdr := func(h fx.Hdr) string {
+		return "(mk_T_Hdr " + bytesL([]byte(h.Name)) + " " + nn(uint64(h.Rtype)) + " " + nn(uint64(h.Ttl)) + ")"
+	}
+	strsL := func(x []string) string {
+		if len(x) == 0 {
+			return "(@nil (list N))"
+		}
+		var p []string
+		for _, c := range x {
+			p = append(p, bytesL([]byte(c)))
+		}
+		return "[" + strings.Join(p, "; ") + "]"
+	}
+	rec := func(x fx.Rec) string {
+		switch v := x.(type) {
+		case nil:
+			return "I_Rec_nil"
+		case *fx.Soa:
+			return "(I_Rec_of_Soa (mk_T_Soa " + hdr(v.Hdr) + " " + nn(uint64(v.Minttl)) + "))"
+		case *fx.Sig:
+			return "(I_Rec_of_Sig (mk_T_Sig " + hdr(v.Hdr) + " " + nn(uint64(v.Expiration)) + " " + nn(uint64(v.Covered)) + "))"
+		case *fx.Txt:
+			return "(I_Rec_of_Txt (mk_T_Txt " + hdr(v.Hdr) + " " + strsL(v.Txt) + "))"
+		case *fx.Opq:
+			return "(I_Rec_other (1)%N " + hdr(v.Hdr) + ")"
+		}
+		panic("rec")
+	}
+	recsL := func(x []fx.Rec) string {
+		if len(x) == 0 {
+			return "(@nil I_Rec)"
+		}
+		var p []string
+		for _, c := range x {
+			p = append(p, rec(c))
+		}
+		return "[" + strings.Join(p, "; ") + "]"
+	}
+	for i := 0; i < 60; i++ {
+		var rs []fx.Rec
+		for j, m := 0, r.Intn(7); j < m; j++ {
+			h := fx.Hdr{Name: string(rb(3)), Rtype: uint16([]int{1, 6, 41, 46, 16, 2}[r.Intn(6)]), Ttl: uint32(r.Intn(400))}
+			switch r.Intn(6) {
+			case 0:
+				rs = append(rs, nil)
+			case 1:
+				rs = append(rs, &fx.Soa{Hdr: h, Minttl: uint32(r.Intn(500))})
+			case 2:
+				rs = append(rs, &fx.Sig{Hdr: h, Expiration: uint32(r.Intn(600)), Covered: uint16(r.Intn(50))})
+			case 3:
+				tx := []string{}
+				for k, q := 0, r.Intn(3); k < q; k++ {
+					tx = append(tx, string(rb(2)))
+				}
+				rs = append(rs, &fx.Txt{Hdr: h, Txt: tx})
+			default:
+				rs = append(rs, &fx.Opq{Hdr: h, X: r.Intn(9)})
+			}
+		}
+		neg := r.Intn(2) == 0
+		now := int64(r.Intn(600000))
+		ex("go_MinTTL "+recsL(rs)+" "+b(neg)+" "+z(int(now)), z(int(fx.MinTTL(rs, neg, now))))
+		k1, k2, k3, k4, k5 := fx.Kinds(rs)
+		ex("go_Kinds "+recsL(rs), "("+z(k1)+", "+z(k2)+", "+z(k3)+", "+z(k4)+", "+z(k5)+")")
+		want := uint16([]int{1, 6, 46}[r.Intn(3)])
+		pf, po := fx.Pick(rs, want)
+		ex("go_Pick "+recsL(rs)+" "+nn(uint64(want)), "("+rec(pf)+", "+recsL(po)+")")
 	}
 	// fuel exhaustion is reported, not papered over
 	ex("go_Walk 2%nat ([1; 65; 1; 66; 1; 67; 0]%N) (0)%Z", "None")
